@@ -15,7 +15,7 @@ from . import hrun
 
 PROPERTY = 'C15'
 EVENTS = ['plain', 'want_ok', 'want_bad', 'raise', 'expected_exception', 'exit_test', 'comment', 'block+SKIP', 'block-SKIP',
-          'inline+SKIP', 'block+REQUIRES', 'inline+REQUIRES', 'bad_directive', 'compile_error']
+          'inline+SKIP', 'block+REQUIRES', 'inline+REQUIRES', 'bad_directive', 'compile_error', 'pytest_skip_in_body']
 BOUNDS = {'quick': 'k=3 events per doctest from a menu of %d, force-disable marker none / DISABLE_DOCTEST / pytest.skip, options from a menu' % len(EVENTS),
           'thorough': 'k=4 events'}
 OUTSIDE = 'pytest collection / session objects, fixtures, -rA report formatting, process exit status of pytest itself (its own contract); collection is the same function core.parse_doctestables in both front ends (C07)'
@@ -88,6 +88,9 @@ class Diff(Harness):
                     hrun.raise_in_doctest_frame(code_, hrun.HarnessExc(idx))
                 elif e == 'exit_test':
                     raise m['exceptions'].ExitTestException()
+                elif e == 'pytest_skip_in_body':
+                    import pytest as _pt
+                    raise _pt.skip.Exception('skipped from inside the doctest')
             E.behaviour[idx] = beh
         dt = m['doctest_example'].DocTest(head + '>>> x = 1\n', None, 'f', 0, 1, mode=mode)
         dt.config['colored'] = False
@@ -237,6 +240,8 @@ def replay(job, cex):
             lines += ['>>> raise KeyError("boom")', 'Traceback (most recent call last):', "KeyError: 'boom'"]
         elif e == 'exit_test':
             lines += ['>>> import xdoctest', '>>> raise xdoctest.ExitTestException()', '']
+        elif e == 'pytest_skip_in_body':
+            lines += ['>>> import pytest', '>>> pytest.skip("from the body")', '']
         elif e == 'comment':
             lines += ['>>> # just a comment', '']
         elif e == 'bad_directive':
